@@ -2,6 +2,7 @@ import Rangers.Basic.Hex
 import Rangers.Basic.Line
 import Rangers.Model.Bls14Verify
 import Rangers.Model.Bls14Hash
+import Rangers.Model.Bls14Jac
 /-!
 Line-protocol driver for C14. One op per line; see harness/cmd/c14/main.go for the
 Go side. Anything that does not parse answers `bad-op` (never a default).
@@ -102,14 +103,21 @@ def step (_ : Unit) (line : String) : Unit × String :=
     | some p => toHex (g1Marshal p.double)
     | none => "bad-op"
   | ["g1add", a, b] => match pt? a, pt? b with
-    | some p, some q => toHex (g1Marshal (p.add q))
+    | some p, some q =>
+      let r := g1Marshal (p.add q)
+      if jMarshal (jAdd (Jac.ofPt p) (Jac.ofPt q)) == r then toHex r else "jacobian-affine-mismatch"
     | _, _ => "bad-op"
   | ["g1mul", a, k] => match pt? a, k.toNat? with
-    | some p, some k => toHex (g1Marshal (p.mul k))
+    | some p, some k =>
+      let r := g1Marshal (p.mul k)
+      if jMarshal (jMul (Jac.ofPt p) k) == r then toHex r else "jacobian-affine-mismatch"
     | _, _ => "bad-op"
   | ["sign", k, msg, hmh] => match k.toNat?, pt? hmh with
     | some k, some _ => match hmChecked? msg hmh with
-      | some hm => toHex (Sig.serialize (sign k hm))
+      | some hm =>
+        -- as executed (Jacobian) and as specified (affine); they are proved equal (Props/C14J)
+        let sj := jMarshal (signJ k hm)
+        if sj == Sig.serialize (sign k hm) then toHex sj else "jacobian-affine-mismatch"
       | none => "hm-mismatch"
     | _, _ => "bad-op"
   | ["h2p", msg, dg] => match ofHex? msg, ofHex? dg with
@@ -118,6 +126,17 @@ def step (_ : Unit) (line : String) : Unit × String :=
       match hashToG1 m with
       | some p => toHex (g1Marshal p)
       | none => "fuel"
+    | _, _ => "bad-op"
+  | ["jlin", a, k1, b, k2] => match pt? a, k1.toNat?, pt? b, k2.toNat? with
+    -- Add(ScalarMult(a,k1), ScalarMult(b,k2)): both operands are non-normalised Jacobian values
+    | some p, some k1, some q, some k2 =>
+      toHex (jMarshal (jAdd (jMul (Jac.ofPt p) k1) (jMul (Jac.ofPt q) k2)))
+    | _, _, _, _ => "bad-op"
+  | ["jdbl", a, k] => match pt? a, k.toNat? with
+    -- Add(X, X) and Neg(X) for X = ScalarMult(a,k): the doubling branch of Add with z ≠ 1
+    | some p, some k =>
+      let x := jMul (Jac.ofPt p) k
+      toHex (jMarshal (jAdd x x)) ++ " " ++ toHex (jMarshal (jNeg x)) ++ " " ++ toHex (jMarshal (jAdd x (jNeg x)))
     | _, _ => "bad-op"
   | ["skser", k] => match k.toNat? with
     | some k => toHex (scalarSerialize k)
